@@ -326,3 +326,59 @@ def note_slice(it, o, new_lo, new_hi):
                            f(a, lo, hi) == f(a, lo, new_lo) + f(a, new_lo, new_hi) + f(a, new_hi, hi)),
                 key=("vsum-split", a.sexpr(), str(lo), str(hi), str(new_lo), str(new_hi)))
     it.run.assumed.append("lemma:vsum_split")
+
+
+# -- numpy 1-D constructors and slice assignment on sequences --------------------------------------------------------
+def _np_zeros(models, it, args, kw, fr, node, val=0):
+    n = args[0]
+    if isinstance(n, tuple):
+        raise Unsupported("np.zeros with a shape tuple", node)
+    return it.run.alloc(HSeq(z3.K(INT, z3.RealVal(val)), z3.IntVal(0), b2i(z(n)), "Real"))
+
+
+def _np_ones(models, it, args, kw, fr, node):
+    return _np_zeros(models, it, args, kw, fr, node, val=1)
+
+
+def _np_empty_like(models, it, args, kw, fr, node):
+    o = _seq_of(it, args[0], node)
+    arr = it.run.fresh(o.arr.sort(), "empty_like")
+    return it.run.alloc(HSeq(arr, z3.IntVal(0), z3.simplify(o.hi - o.lo), o.elem))
+
+
+def _norm_bound(x, n, default):
+    if x is None:
+        return default
+    zx = b2i(z(x))
+    zx = z3.If(zx < 0, zx + n, zx)
+    return z3.If(zx < 0, z3.IntVal(0), z3.If(zx > n, n, zx))
+
+
+def _setslice(models, it, base, lo, hi, val, node):
+    if not isinstance(base, Ref):
+        return NotImplemented
+    o = it.run.obj(base)
+    if not isinstance(o, HSeq):
+        return NotImplemented
+    n = o.hi - o.lo
+    a = _norm_bound(lo, n, z3.IntVal(0))
+    b = _norm_bound(hi, n, n)
+    i = z3.Int("i!ss%d" % it.run.fresh_n)
+    it.run.fresh_n += 1
+    inside = z3.And(i >= o.lo + a, i < o.lo + b)
+    if isinstance(val, Ref) and isinstance(it.run.obj(val), (HSeq, HList)):
+        src = _seq_of(it, val, node)
+        # numpy requires equal lengths (broadcast of a length-1 source is not used by the analysed code)
+        it.run.oblige("slice-assign-length@%s" % getattr(node, "lineno", "?"),
+                      z3.If(b - a < 0, z3.IntVal(0), b - a) == src.hi - src.lo, kind="safety")
+        o.arr = z3.Lambda([i], z3.If(inside, src.arr[src.lo + (i - (o.lo + a))], o.arr[i]))
+    else:
+        t = it.elem_term(val, o.elem)
+        o.arr = z3.Lambda([i], z3.If(inside, t, o.arr[i]))
+    return True
+
+
+HOOKS["setslice"].append(_setslice)
+_arrays.EXTRA_EXT["numpy.zeros"] = _np_zeros
+_arrays.EXTRA_EXT["numpy.ones"] = _np_ones
+_arrays.EXTRA_EXT["numpy.empty_like"] = _np_empty_like
